@@ -27,13 +27,22 @@ def _reldev(a, b):
     return d.reshape(len(d), -1).max(axis=1) if d.ndim > 1 else d
 
 
+def _ulp_shift(x0, n):
+    def one(v):
+        for _ in range(abs(n)):
+            v = float(np.nextafter(v, np.inf if n > 0 else -np.inf))
+        return v
+    return [one(v) for v in x0] if isinstance(x0, list) else one(x0)
+
+
 def check_phase_order(case):
     """Permuting the phase list changes only the order in which per-phase terms are summed.  Floating-point sums are not
     associative, and a precipitation run amplifies rounding-level differences (measured: a relative change of 2e-16 of the
-    alloy content grows to 1e-8 after 110 steps and to 10 % after 200 in a run near a nucleation burst).  The permuted run is
-    therefore judged step by step against an envelope obtained from a third run of the original order whose alloy content
-    is perturbed by two units in the last place: deviations up to 1e-9 + 100 x that run's (running maximum) deviation are
-    rounding, anything larger is an effect of the order."""
+    alloy content grows to 1e-8 after 110 steps and to 10 % after 200 in a run near a nucleation burst; discrete events make
+    the response jump: 1e-12 at step 168, 0.9 at step 172 in one thorough-tier case).  The permuted run is therefore judged
+    step by step against an envelope obtained from three runs of the original order whose alloy content is perturbed by a
+    few units in the last place: deviations up to 1e-9 + 100 x those runs' (running maximum) deviation are rounding, anything
+    larger is an effect of the order; steps after the envelope passes 1e-6 are not judged."""
     out = Out()
     sc = case["sc"]
     perm = case["perm"]
@@ -60,31 +69,43 @@ def check_phase_order(case):
     devs = {name: _reldev(x, y) for name, x, y, _ in series}
     strict_ok = n1 == n2 and devs["time"].max() <= 1e-9 and all(devs[n].max() <= 1e-7 for n in devs if n != "time")
     if not strict_ok:
-        # calibrate: how far does a rounding-level perturbation carry this run?
-        sc3 = dict(sc)
-        sc3["x0"] = float(np.nextafter(np.nextafter(sc["x0"], np.inf), np.inf)) if not isinstance(sc["x0"], list) else [float(np.nextafter(np.nextafter(v, np.inf), np.inf)) for v in sc["x0"]]
-        sys.stdout = io.StringIO()
-        try:
-            r3 = H.run(sc3)
-        finally:
-            sys.stdout = so
-        p3 = r3["model"].pData
-        k3 = min(k, len(p3.time))
+        # calibrate: how far do rounding-level perturbations carry this run?  Three perturbed runs (alloy content moved by
+        # +2, -1 and +4 units in the last place): discrete events (a class boundary crossed, a step limit switching) make the
+        # response to a perturbation jump, so one perturbed run under-estimates what another rounding pattern can do.
         noise = np.zeros(k)
-        for a in ["time"] + GL_ATTRS[1:] + PH_ATTRS:
-            dn = _reldev(np.asarray(getattr(p1, a))[:k3], np.asarray(getattr(p3, a))[:k3])
-            noise[:k3] = np.maximum(noise[:k3], dn)
-        noise[k3:] = np.inf
+        kmin = k
+        for ulps in (2, -1, 4):
+            sc3 = dict(sc)
+            sc3["x0"] = _ulp_shift(sc["x0"], ulps)
+            sys.stdout = io.StringIO()
+            try:
+                r3 = H.run(sc3)
+            finally:
+                sys.stdout = so
+            p3 = r3["model"].pData
+            k3 = min(k, len(p3.time))
+            kmin = min(kmin, k3)
+            for a in ["time"] + GL_ATTRS[1:] + PH_ATTRS:
+                dn = _reldev(np.asarray(getattr(p1, a))[:k3], np.asarray(getattr(p3, a))[:k3])
+                noise[:k3] = np.maximum(noise[:k3], dn)
+        noise[kmin:] = np.inf
         envelope = np.maximum.accumulate(noise)
         allowed_t = 1e-9 + 100 * envelope
         allowed_h = 1e-7 + 100 * envelope
+        # once rounding has been amplified by ten orders of magnitude (envelope > 1e-6) the run is past the point where
+        # two evaluations of the same mathematics can be told apart: later steps are not judged
+        sens = np.where(envelope > 1e-6)[0]
+        if len(sens):
+            allowed_t[sens[0]:] = np.inf
+            allowed_h[sens[0]:] = np.inf
+            out.label("sensitive_tail_not_judged")
         worst = None
         for name in devs:
             allowed = allowed_t if name == "time" else allowed_h
             bad = np.where(devs[name] > allowed)[0]
             if len(bad) and (worst is None or bad[0] < worst[1]):
                 worst = (name, int(bad[0]))
-        judged_all = bool(np.all(envelope[:k] < 1e-3))
+        judged_all = bool(np.all(envelope[:k] <= 1e-6))
         if worst is None and (n1 == n2 or not judged_all):
             out.label("within_rounding_sensitivity")
         elif worst is None:
